@@ -390,6 +390,10 @@ class TokenizerState:
     def in_colon(self) -> bool:
         return self.in_mode(ModeInColon)
 
+    def fstring_quote(self) -> str:
+        """The quote of the innermost f-string that is open."""
+        return next((p.quote for p in reversed(self.end_progs) if p.quote), "")
+
     def in_multi_line_string(self) -> bool:
         return bool(self.end_progs) and (len(self.end_progs[-1].quote) == 3)
 
@@ -559,7 +563,7 @@ def next_psuedo_matches(state: TokenizerState) -> TokenInfo | None:
                 state.pop_mode((state.lnum, end))
             state.parenlev -= 1
         elif token == ":" and state.in_braces() and state.at_parenlev():
-            quote = next(p.quote for p in reversed(state.end_progs) if p.quote)
+            quote = state.fstring_quote()
             state.add_prog(start + 1, end, mode=ModeInColon(state.parenlev), pattern=fstring_spec_pattern(quote))
         token_type = Token.OP
     elif match.lastgroup == "End":  # // continuation
@@ -665,16 +669,20 @@ def handle_end_progs(state: TokenizerState) -> Iterator[TokenInfo]:
     if state.pos != pos:  # a part of the f-string was consumed: the caller comes back for the rest of the line
         return
 
-    if (
-        (state.pos == 0 and state.in_colon())  # format spec continued at the start of the line
-        or ((state.in_multi_line_string()) or (state.in_continued_string()))
-    ):
-        if state.in_colon() and not state.end_progs[-1].text:
-            # the rest of the previous line was lexed on its own: this part of the spec starts here
-            state.end_progs[-1].reset((state.lnum, state.pos), "")
+    if state.in_colon():  # the line ends inside a format spec
+        if len(state.fstring_quote()) == 3 or state.in_continued_string():
+            # in a triple-quoted f-string the literal part of the spec runs on over the end of the line
+            state.end_progs[-1].join_line(state)
+            state.pos = state.max
+        else:
+            # like CPython, the end of the line closes the spec of a single-quoted f-string: the rest is lexed as
+            # part of the replacement field (where all that can follow is the closing brace)
+            yield state.prog_token(len(state.line.rstrip("\r\n")), Token.FSTRING_MIDDLE)
+            state.pop_mode()
+    elif (state.in_multi_line_string()) or (state.in_continued_string()):
         state.end_progs[-1].join_line(state)
         state.pos = state.max
-    elif not state.in_colon():  # nothing matched and the line does not continue
+    else:  # nothing matched and the line does not continue
         raise TokenError("unterminated string literal", state.end_progs[-1].start)
 
 
